@@ -44,6 +44,11 @@ Theorem roundtrip : forall fuel items,
 Proof.
   induction fuel as [|fuel IH]; intros items Hlen Hwf; [slia|].
   cbn [parse]. unfold parse_step.
+  (* no `$` at all: the component-first test is false *)
+  assert (Hcf : comp_first idc true (print_list items) = Ok false).
+  { unfold comp_first. change s_fk with (c_dollar :: [c_t; c_lp]).
+    rewrite split_once_no_char by (apply items_no_dollar with (idc := idc); exact Hwf). reflexivity. }
+  rewrite Hcf. cbn [bind]. unfold parse_chain.
   (* no foreign key *)
   assert (Hfk : find_foreign_key idc json_args true (parse idc json_args true fuel) (print_list items) = Ok None).
   { unfold find_foreign_key. change s_fk with (c_dollar :: [c_t; c_lp]).
